@@ -43,7 +43,7 @@ CHECKS = {
    note="Bounds are relative to the simulator's cost model and injected delays; nothing is established about absolute wall-clock figures of the real binary."),
  "C09": dict(level="exploration", design="5/C09",
    technique="deterministic simulation family S-A (measured delay vs the engine's own plan on virtual time, fault-free and with timing faults) plus a configuration sweep of the plan against an exact-arithmetic policy model",
-   text="(i) for every simulated go on a non-terminal position the virtual go->bestmove delay is at least the plan and at most plan + scheduling slack (+ injected delay); (ii) the plan computed by the real parse_go_command + calculate_time_slice is checked against the statement's inequalities over a systematic sweep of clock/increment/movestogo/side values around the margin and sign boundaries, including independence from the opponent's clock.",
+   text="(i) for every simulated go on a non-terminal position the virtual go->bestmove delay is at least the plan and at most plan + scheduling slack (+ injected delay); (ii) the plan computed by the real parse_go_command + calculate_time_slice is checked against the statement's inequalities over a systematic sweep of clock/increment/movestogo/side values around the margin and sign boundaries, including independence from the opponent's clock and from the order in which the parameters are written.",
    note="(ii) is arithmetic over configurations (no schedule in it) and is included because the timed clause is only meaningful relative to the plan. Plans too long to simulate are checked in (ii) only."),
  "C16": dict(level="exploration", design="5/C16",
    technique="deterministic simulation family S-A: metamorphic session pairs (fresh engine vs after seeded earlier traffic with timing faults in the prefix), prefix-relation oracle over the recorded improvement sequences",
@@ -55,11 +55,11 @@ CHECKS = {
    note="Exhaustive only over the EOF boundaries of the scripts drawn; scripts and noise placement are sampled. Noise does not begin with a known command word (except setoption for unknown options)."),
  "C07": dict(level="fault_enumeration", design="5/C07",
    technique="deterministic simulation family S-B: the real get_best_move under a scripted clock that expires at the k-th query, for every k of each sampled position (crash-point enumeration), compared with a reference run under an unlimited clock",
-   text="For each sampled position (half with a game history in the repetition record) the clock is made to expire at every query index k in [0, K] (all k when K <= 1500; otherwise all k <= 300, +-3 around every send/info boundary and 300 sampled). Per k: no panic; boards handed back are a prefix of the unlimited run's (one legal first-in-ordering board when nothing completed); info lines are a prefix; the repetition record is unchanged; no sentinel in any score. Each position is also run with an allowance of 2^63-1 .. u128::MAX ms that the clock never reaches: the reported sequence must be the reference's. Closed-shuffle roots (tiny trees) are run to the search's own end - all 99 iterations - with sampled expiry points on the way.",
+   text="For each sampled position (half with a game history in the repetition record) the clock is made to expire at every query index k in [0, K] (all k when K <= 1500; otherwise all k <= 300, +-3 around every send/info boundary and 300 sampled). Per k: no panic; boards handed back are a prefix of the unlimited run's (one legal first-in-ordering board when nothing completed); info lines are a prefix; the repetition record is unchanged; no sentinel in any score. Each position is also run with an allowance of 2^63-1 .. u128::MAX ms that the clock never reaches: the reported sequence must be the reference's. Never-reached allowances of ordinary magnitude (30 s ... 24 h) must report the same sequence too. Closed-shuffle roots (tiny trees) are run to the search's own end - all 99 iterations - with sampled expiry points on the way.",
    note="Exhaustive over expiry points only for the positions drawn (and only when K <= 1500); positions are sampled; search depth in simulation is <= 5 on ordinary positions and 99 on closed shuffles. The unlimited-clock reference is itself anchored by C12 and C18."),
  "C10": dict(level="exploration", design="5/C10",
    technique="deterministic simulation families S-C (real position handler vs a multiset model over shuffle-rich histories) and S-B (real search under a scripted clock on roots offering a repetition)",
-   text="(i) after the real position handler has replayed histories with up to 100 repetitions the record must hold exactly the occurrence count of every position and nothing else - both by calling the handler directly and in simulated sessions of several position commands through the real command loop; (ii) on roots where a clearly worse mover can step into a position that already occurred 2, 3 or 4 times, every completed depth must report a score >= 0 - by calling the search directly and, observed on stdout only, in simulated sessions where the repetition root follows earlier timed searches (late hand-overs from their threads injected).",
+   text="(i) after the real position handler has replayed histories with up to 100 repetitions the record must hold exactly the occurrence count of every position and nothing else - both by calling the handler directly and in simulated sessions of several position commands through the real command loop; (ii) on roots where a clearly worse mover can step into a position that already occurred 2, 3 or 4 times, every completed depth must report a score >= 0 - by calling the search directly and, observed on stdout only, in simulated sessions where the repetition root follows earlier timed searches (late hand-overs from their threads injected). Roots include perpetual-check cycles in which the mover is far ahead and has a single legal move.",
    note="Counts are compared by the from-scratch key of the referee position; zero-count entries are treated as absent."),
  "C11": dict(level="exploration", design="5/C11",
    technique="deterministic simulation family S-B: real search to depth 3 under a scripted clock on generated near-mate positions; oracle = independent AND/OR mate solver on the referee",
